@@ -203,13 +203,14 @@ PROPS['C21'] = {
 }
 
 PROPS['C22'] = {
-    'units': ['parsers'],
-    'functions': [],
+    'units': ['parsers', 'solutions'],
+    'functions': ['solutions.rs::solve', 'solutions.rs::solve_all'],
     'kani': {'quick': ['c22_start_query_resets', 'c22_stop_flag', 'c22_make_query_resets', 'c22_start_query_timer_resets', 'c10_counter_contract'], 'thorough': []},
     'oracles': {'*': 'c22_make_query'},
     'not_covered': [
         "that the engine has no other cross-query state is checked mechanically on every run (source scan: the only mutable globals are SUIRON_STOP_QUERY and LOGIC_VAR_ID, no static with interior mutability, no thread_local!/lazy_static!); that it reads these two only through count_rules / next_id is read, not proved",
         'the timer thread itself (ThreadTimer) is stubbed in the start_query_timer harness: only the flag reset before arming it is proved',
+        'solve / solve_all (unit solutions, verbatim bodies; SolutionNode and ThreadTimer are opaque stand-in types, `sn.borrow().goal.clone()` is an R10 wrapper): a ghost counter shows that the search starts only after start_query_timer() and that the timer is cancelled on every path out, so no timer armed by one call can stop a later query; what next_solution does with the node is outside reach',
         'parse_query: PROVED in Verus (unit parsers, verbatim body) that every query it returns was obtained from make_query (provenance clause #query_from_constructor over the uninterpreted marker built_by_make_query, '
         'assumed only at make_query\'s call sites); make_query\'s reset of the two globals is the Kani harness. A direct Kani harness on parse_query (kani/src/globals.rs, parse_complex stubbed) did not finish in 15 min / 9.5 GB and is not registered',
     ],
